@@ -7,6 +7,7 @@ import (
 	"fmt"
 	"io"
 	"net"
+	"os"
 	"strings"
 	"sync"
 	"syscall"
@@ -74,6 +75,7 @@ type Conn struct {
 	rFIN      bool
 	rRST      bool
 	rwait     chan struct{}
+	rdl       time.Time // read deadline
 	Delivered int
 	Consumed  int
 	RFinSeq   uint64
@@ -151,10 +153,27 @@ func (c *Conn) Read(b []byte) (int, error) {
 			c.mu.Unlock()
 			return 0, io.EOF
 		}
+		dl := c.rdl
+		if !dl.IsZero() && !time.Now().Before(dl) {
+			c.mu.Unlock()
+			return 0, &net.OpError{Op: "read", Net: "tcp", Err: os.ErrDeadlineExceeded}
+		}
 		wk := make(chan struct{})
 		c.rwait = wk
 		c.mu.Unlock()
-		simrt.BlockOn("conn.read.wait", wk)
+		if dl.IsZero() {
+			simrt.BlockOn("conn.read.wait", wk)
+			continue
+		}
+		// a read deadline is set: wake up at the deadline too
+		d := time.Until(dl)
+		if s := simrt.Active(); s != nil {
+			d += s.UniqueOffset(d, 0)
+		}
+		fired := make(chan struct{})
+		tm := time.AfterFunc(d, func() { close(fired) })
+		simrt.BlockOn2("conn.read.wait", wk, fired)
+		tm.Stop()
 	}
 }
 
@@ -285,8 +304,18 @@ func (c *Conn) tcpAddr(a Addr) net.Addr {
 	fmt.Sscanf(ps, "%d", &port)
 	return &net.TCPAddr{IP: ip, Port: port}
 }
-func (c *Conn) SetDeadline(time.Time) error      { return nil }
-func (c *Conn) SetReadDeadline(time.Time) error  { return nil }
+
+// Read deadlines are honoured (a blocked Read wakes up and re-evaluates when the
+// deadline is changed); write deadlines are accepted and irrelevant because
+// Write never blocks.
+func (c *Conn) SetDeadline(t time.Time) error { return c.SetReadDeadline(t) }
+func (c *Conn) SetReadDeadline(t time.Time) error {
+	c.mu.Lock()
+	c.rdl = t
+	c.wakeReader()
+	c.mu.Unlock()
+	return nil
+}
 func (c *Conn) SetWriteDeadline(time.Time) error { return nil }
 
 // ---- the remote side (used by scripts and oracles) ----
